@@ -141,6 +141,9 @@ structure Cfg where
   /-- code variant: `calcExpirationDate` counts from reception when the creation time is zero
       (D22 repaired) -/
   expiryNow : Bool
+  /-- code variant: `DTLSR.ReportFailure` removes the peer from the sent list of a broadcast bundle
+      (`false` = the original empty function) -/
+  dtlsrFail : Bool
 deriving DecidableEq, Repr
 
 /-- `sprayMetaData` (in memory only). -/
@@ -394,7 +397,12 @@ def reportFailure (d : Desc) (p : Peer) (n : Node) : Node :=
     match n.store.get d.key with
     | none => n
     | some it => n.setItem d.key { it with sentP := eraseFirst p.eid it.sentP }
-  | .dtlsr => n
+  | .dtlsr =>
+    if n.cfg.dtlsrFail && (match d.bndl with | some b => b.dst = n.cfg.bcast | none => false) then
+      match n.store.get d.key with
+      | none => n
+      | some it => n.setItem d.key { it with sentD := eraseFirst p.eid it.sentD }
+    else n
 
 /-- `SenderForBundle` of the underlying algorithm: the chosen senders, the delete-afterwards flag,
 the descriptor (binary spray writes its block into the in-memory bundle) and the new state. -/
